@@ -191,11 +191,20 @@ def check_pytest(case):
         extra += ["", "def helper_with_local_import():", "    from inline_snapshot import HasRepr, external",
                   "    return HasRepr, external"]
     src = src + "\n".join(extra) + "\n"
-    d = drivers.make_project({"test_a.py": src})
+    files = {"test_a.py": src}
+    twin = len(src) % 2 == 0 and not case["ext"]
+    if twin:
+        # a second module from the same template (identical functions at identical lines, its own file)
+        files["test_twin.py"] = src
+    d = drivers.make_project(files)
     try:
         r1 = drivers.run_pytest(d, ["--inline-snapshot=create"])
-        if "INTERNALERROR" in r1.stdout or r1.returncode not in (0, 1):
-            raise Violation("pytest-internal", f"rc={r1.returncode}\n{r1.stdout[-1500:]}\n{r1.stderr[-500:]}\n{src}")
+        if "INTERNALERROR" in r1.stdout or r1.returncode not in (0, 1) or "Traceback (most recent call last)" in r1.stderr:
+            raise Violation("pytest-internal", f"rc={r1.returncode}\n{r1.stdout[-1500:]}\n{r1.stderr[-1500:]}\n{src}")
+        if twin and r1.files_after["test_twin.py"] != r1.files_after["test_a.py"]:
+            raise Violation("twin-modules-differ",
+                            f"two identical modules were rewritten differently\n--- test_a.py\n{r1.files_after['test_a.py'].decode()}"
+                            f"\n--- test_twin.py\n{r1.files_after['test_twin.py'].decode()}")
         new = r1.files_after["test_a.py"]
         try:
             text = new.decode("utf-8")
